@@ -385,6 +385,13 @@ class Engine(
                 # operands are only Selects if they need to be subqueries.
                 new_lhs, new_lhs_needs_projection = lhs.strip()
                 new_rhs, new_rhs_needs_projection = rhs.strip()
+                # Stripping a Projection exposes the columns it had dropped;
+                # keep the Select as a subquery if any of those would shadow
+                # a column of the other operand.
+                if new_lhs_needs_projection and not (new_lhs.columns - lhs.columns).isdisjoint(rhs.columns):
+                    new_lhs, new_lhs_needs_projection = lhs, False
+                if new_rhs_needs_projection and not (new_rhs.columns - rhs.columns).isdisjoint(lhs.columns):
+                    new_rhs, new_rhs_needs_projection = rhs, False
                 if new_lhs_needs_projection or new_rhs_needs_projection:
                     projection = Projection(frozenset(lhs.columns | rhs.columns))
                 else:
